@@ -399,6 +399,33 @@ fn check_encoded_kind(e: &DynError, err: &Error, id: Option<Uuid>, r: &mut Repor
     }
 }
 
+/// the convenience constructors build the INTERNAL error of the specification; every call is an
+/// encoding of its own (fresh instance id), whatever was constructed before it in the process
+fn convenience(r: &mut Report) {
+    let mut seen = BTreeSet::new();
+    for round in 0..6 {
+        for (how, err) in [("Error::internal", Error::internal("cause")), ("Error::internal_safe", Error::internal_safe("cause")), ("Error::service(Internal)", Error::service("cause", conjure_error::Internal::new()))] {
+            r.states += 1;
+            r.evaluations += 1;
+            r.transitions += 1;
+            let case = json!({"error": "Default:Internal", "via": how, "round": round});
+            let ErrorKind::Service(s) = err.kind() else {
+                r.violation(format!("C17|convenience|{}|not-a-service-error", how), format!("{} does not build a service error", how), case);
+                continue;
+            };
+            if s.error_code().as_str() != "INTERNAL" || s.error_name() != "Default:Internal" || !s.parameters().is_empty() || !err.safe_params().is_empty() || !err.unsafe_params().is_empty() {
+                r.violation(format!("C17|convenience|{}|wrong-form", how), format!("{} encodes as {} / {} with parameters {:?}", how, s.error_code().as_str(), s.error_name(), s.parameters()), case);
+            } else if s.error_instance_id().get_version_num() != 4 {
+                r.violation(format!("C17|convenience|{}|instance-id-not-random-v4", how), format!("{}: instance id {}", how, s.error_instance_id()), case);
+            } else if !seen.insert(s.error_instance_id()) || !FRESH_IDS.lock().unwrap().insert(s.error_instance_id()) {
+                r.violation(format!("C17|convenience|{}|instance-id-not-fresh", how), format!("{} (call {} of the sequence) carries the instance id {} that an earlier error of this process already has", how, round + 1, s.error_instance_id()), case);
+            } else {
+                r.outcome("convenience-constructor:fresh-internal-error");
+            }
+        }
+    }
+}
+
 /// error types that occupy no memory but still have scalar parameters (a field whose type has
 /// one value: a one-value enum, a marker that serializes as a string), by value and by reference
 fn zero_sized(r: &mut Report) {
@@ -572,6 +599,7 @@ pub fn run(args: &Args) -> Report {
         check_error(&e, &mut report, true);
     }
     zero_sized(&mut report);
+    convenience(&mut report);
 
     report.bound("one_parameter_shape_depth", depth);
     report.bound("partition_names", json!(names));
